@@ -13,6 +13,7 @@ structure Case where
   chunk : Nat := 1
   probe : Bool := false    -- every wait is polled under a throw-away waker first
   adaptFail : Bool := false
+  adaptClosed : Bool := false
   ops : List String := []
 
 structure World where
@@ -52,6 +53,8 @@ def snapshot (c : Case) (w : World) : String :=
 
 def runCase (c : Case) : List String :=
   -- a refused registration: the call fails, the loop's bookkeeping and the fd's mode are as before
+  -- refused before the poller is asked (the fd is closed): three failed calls, no slot taken
+  if c.adaptClosed then [s!"case {c.name}", "adaptclosed errs=3 occupied=0->0 slots_grew=0"] else
   if c.adaptFail then [s!"case {c.name}", s!"adaptfail err=1 bookkeeping=same nonblock={if c.blocking then 0 else 1}"] else
   -- write mode within the buffer: the room is there from the start
   let room := if c.modeRead then 0 else c.total
@@ -77,11 +80,12 @@ def runCase (c : Case) : List String :=
 def stepLine (c : Case) (line : String) : Case × List String :=
   match words line with
   | "case" :: nm :: _ => ({ name := nm }, [])
-  | ["mode", m] => ({ c with modeRead := m == "read", adaptFail := m == "adaptfail" }, [])
+  | ["mode", m] => ({ c with modeRead := m == "read", adaptFail := m == "adaptfail", adaptClosed := m == "adaptclosed" }, [])
   | ["blocking", b] => ({ c with blocking := b == "1" }, [])
   | ["total", t, "chunk", k] => ({ c with total := t.toNat?.getD 0, chunk := max 1 (k.toNat?.getD 1) }, [])
   | ["finish", _] => (c, [])
   | ["probe", b] => ({ c with probe := b == "1" }, [])
+  | ["vectored", _] => (c, [])   -- the vectored entry points follow the same protocol
   | ["end"] => (c, runCase c)
   | _ => ({ c with ops := c.ops ++ [line] }, [])
 
